@@ -102,3 +102,118 @@ def run_model(conc_name, rng, end_t=6, maxev=14, step_mode=False):
         except Exception:
             pass
     return trace, errors
+
+
+def run_segmented(conc_name, rng, end_t=6, warm_t=1, maxev=14):
+    """Driver for RunListeners.tla: the run is cut into bounded segments; handlers and the listeners of START / TIME_CHANGED /
+    WARMUP / STOP schedule and cancel events.  Vocabulary of TraceRunListeners.tla (ids: 1 = the simulator's own warm-up
+    event, the others in scheduling order; times as spec integers)."""
+    c = dd.Conc(conc_name)
+    sim = c.sim("rl")
+    trace, errors = [], []
+    rank = [1]
+    objs = {}
+    cur = {"b": None, "inc": None}
+
+    def sched(by, kind, d, p, model):
+        try:
+            if kind == "now":
+                e = sim.schedule_event_now(model, "h", p, k=rank[0] + 1)
+            else:
+                e = sim.schedule_event_rel(c.t(d), model, "h", p, k=rank[0] + 1)
+        except Exception as ex:
+            errors.append(f"{by} scheduling ({kind}, {d}) raised {type(ex).__name__}: {ex}")
+            return
+        rank[0] += 1
+        objs[rank[0]] = e
+        trace.append({"a": "Sched", "by": by, "d": 0 if kind == "now" else d, "p": p, "t": c.back(e.time), "id": rank[0]})
+
+    def cancel():
+        live = [i for i, e in objs.items() if sim.eventlist().contains(e)]
+        if not live:
+            return
+        i = rng.choice(live)
+        try:
+            sim.cancel_event(objs[i])
+        except Exception as ex:
+            errors.append(f"listener cancelling event {i} raised {type(ex).__name__}: {ex}")
+            return
+        trace.append({"a": "Cancel", "id": i})
+
+    class M(DSOLModel):
+        def construct_model(self):
+            for _ in range(rng.choice([1, 2, 3, 4])):
+                sched("init", "rel", rng.choice([0, 1, 2, 3]), rng.choice([1, 5]), self)
+
+        def h(self, k):
+            trace.append({"a": "Exec", "id": k, "clk": c.back(sim.simulator_time)})
+            for _ in range(rng.choice([0, 0, 1, 2])):
+                if rank[0] < maxev:
+                    sched("handler", rng.choice(["now", "rel"]), rng.choice([0, 1, 2]), rng.choice([1, 5]), self)
+
+    class L(EventListener):
+        def __init__(self, model):
+            self.model = model
+
+        def act(self, prob):
+            if rng.random() < 0.25:
+                cancel()
+            if rank[0] < maxev and rng.random() < prob:
+                kind = rng.choice(["now", "rel"])
+                sched("listener", kind, 0 if kind == "now" else rng.choice([0, 1, 2]), rng.choice([1, 5]), self.model)
+
+        def notify(self, event):
+            ty = event.event_type
+            if ty == Simulator.TIME_CHANGED_EVENT:
+                trace.append({"a": "TC", "ts": c.back(event.timestamp)})
+                self.act(0.4)
+            elif ty == ReplicationInterface.WARMUP_EVENT:
+                trace.append({"a": "Exec", "id": 1, "clk": c.back(sim.simulator_time)})
+                if c.back(event.timestamp) != c.back(sim.simulator_time):
+                    errors.append(f"WARMUP stamped {event.timestamp} at simulator time {sim.simulator_time}")
+                self.act(0.6)
+            elif ty == Simulator.START_EVENT:
+                trace.append({"a": "Start", "ts": c.back(event.timestamp), "b": cur["b"], "inc": cur["inc"]})
+                self.act(0.6)
+            elif ty == Simulator.STOP_EVENT:
+                trace.append({"a": "Stop", "ts": c.back(event.timestamp)})
+                self.act(0.7)
+
+    m = M(sim)
+    with dd.quiet():
+        sim.initialize(m, SingleReplication("r", c.at(0), c.t(warm_t), c.t(end_t)))
+        lst = L(m)
+        for ty in (Simulator.TIME_CHANGED_EVENT, ReplicationInterface.WARMUP_EVENT, Simulator.START_EVENT, Simulator.STOP_EVENT):
+            sim.add_listener(ty, lst)
+        for _ in range(4 * end_t + 8):
+            if sim.run_state.name == "ENDED":
+                break
+            now = c.back(sim.simulator_time)
+            if now == dd.BAD or now >= end_t:
+                errors.append(f"simulator neither ended nor before the end: time {sim.simulator_time}, state {sim.run_state.name}")
+                break
+            r = rng.random()
+            b = end_t if r < 0.2 else rng.randint(now, end_t)
+            inc = rng.random() < 0.5
+            cur["b"], cur["inc"] = b, inc
+            try:
+                if r < 0.1:
+                    cur["b"], cur["inc"] = end_t, True
+                    sim.start()
+                elif inc:
+                    sim.run_up_to_including(c.at(b))
+                else:
+                    sim.run_up_to(c.at(b))
+            except Exception as ex:
+                errors.append(f"segment command (bound {b}, inclusive {inc}) at time {now} raised {type(ex).__name__}: {ex}")
+                break
+            if not dd.wait_idle(sim):
+                errors.append("run thread did not come to rest")
+                break
+        else:
+            errors.append("replication did not end within the command budget")
+        try:
+            sim.cleanup()
+        except Exception:
+            pass
+    return trace, errors
